@@ -708,9 +708,84 @@ class Inliner:
             exprs = _stmt_exprs(st)
         return pre
 
+    def _inline_expression_helpers(self, scope: FunctionInfo, st: ast.stmt) -> None:
+        """a module-level helper of the same module whose body is one `return <expression>`, called with plain names / constants /
+        attribute chains: the call is replaced by that expression where it stands - also in the right operand of and / or, in a
+        conditional expression or a comprehension, where nothing may be hoisted (nothing is: the arguments have no effects)"""
+        def simple(e: ast.AST) -> bool:
+            if isinstance(e, (ast.Name, ast.Constant)):
+                return True
+            return isinstance(e, ast.Attribute) and simple(e.value)
+
+        def once(e: ast.AST) -> bool:
+            # may be evaluated where the parameter stands, provided the parameter is read exactly once: str(x), xs[0], str(xs[0])
+            if simple(e):
+                return True
+            if isinstance(e, ast.Subscript) and not isinstance(e.slice, ast.Slice):
+                return once(e.value) and simple(e.slice)
+            return isinstance(e, ast.Call) and isinstance(e.func, ast.Name) and e.func.id in ("str", "repr", "len", "int", "list", "tuple") \
+                and len(e.args) == 1 and not e.keywords and once(e.args[0])
+        for _ in range(6):
+            done = False
+            for e in _stmt_exprs(st):
+                for c in [x for x in ast.walk(e) if isinstance(x, ast.Call)]:
+                    got = self.sel.target_of(scope, c)
+                    if got is None or got[2] != "fn" or got[1] is not None:
+                        continue
+                    t = got[0]
+                    if t.module is not scope.module or t.cls is not None:
+                        continue
+                    body = [b for b in t.node.body if not (isinstance(b, ast.Expr) and isinstance(b.value, ast.Constant) and isinstance(b.value.value, str))]
+                    if len(body) != 1 or not isinstance(body[0], ast.Return) or body[0].value is None:
+                        continue
+                    a = t.node.args
+                    if a.vararg or a.kwarg or a.kwonlyargs or a.posonlyargs:
+                        continue
+                    names = [x.arg for x in a.args]
+                    if len(c.args) > len(names) or not all(once(x) for x in c.args) or not all(k.arg in names and once(k.value) for k in c.keywords):
+                        continue
+                    uses = {}
+                    for x in ast.walk(body[0].value):
+                        if isinstance(x, ast.Name) and isinstance(x.ctx, ast.Load):
+                            uses[x.id] = uses.get(x.id, 0) + 1
+                    bound_args = dict(zip(names, c.args))
+                    bound_args.update({k.arg: k.value for k in c.keywords})
+                    if any(not simple(v_) and uses.get(nm_, 0) != 1 for nm_, v_ in bound_args.items()):
+                        continue
+                    mapping: Dict[str, ast.AST] = {}
+                    for nm, av in zip(names, c.args):
+                        mapping[nm] = av
+                    for k in c.keywords:
+                        mapping[k.arg] = k.value
+                    defaults = dict(zip(names[len(names) - len(a.defaults):], a.defaults))
+                    missing = [nm for nm in names if nm not in mapping]
+                    if any(nm not in defaults or not isinstance(defaults[nm], ast.Constant) for nm in missing):
+                        continue
+                    for nm in missing:
+                        mapping[nm] = defaults[nm]
+                    expr = copy.deepcopy(body[0].value)
+                    if any(isinstance(x, (ast.Yield, ast.YieldFrom, ast.Await, ast.NamedExpr, ast.Lambda)) for x in ast.walk(expr)):
+                        continue
+                    # locals of the expression other than the parameters (comprehension variables) must not clash with the caller
+                    bound = {x.id for x in ast.walk(expr) if isinstance(x, ast.Name) and isinstance(x.ctx, ast.Store)}
+                    caller_names = {x.id for x in ast.walk(scope.node) if isinstance(x, ast.Name)}
+                    if bound & caller_names:
+                        continue
+                    new_e = _Subst({k_: copy.deepcopy(v_) for k_, v_ in mapping.items()}).visit(expr)
+                    _Replace(c, ast.copy_location(new_e, c)).visit(st)
+                    self.log.append((scope.qualname, t.qualname))
+                    self.used.add(t.qualname) if hasattr(self, "used") else None
+                    done = True
+                    break
+                if done:
+                    break
+            if not done:
+                break
+
     def stmt(self, scope: FunctionInfo, st: ast.stmt, depth: int) -> List[ast.stmt]:
         if depth <= 0 or isinstance(st, (ast.FunctionDef, ast.AsyncFunctionDef, ast.ClassDef)):
             return [st]
+        self._inline_expression_helpers(scope, st)
         # whole-statement forms
         if isinstance(st, ast.Expr) and isinstance(st.value, ast.Call):
             rep = self.inline_call(scope, st.value, "expr", None, st, depth)
@@ -1417,6 +1492,8 @@ def _unwrap_oneshot(stmts: List[ast.stmt], budget: List[int]) -> Optional[List[a
 
 
 _MISSING = object()
+_MARKER = object()
+_NOT_MARKER = object()
 
 
 def _sentinel_of(e: ast.AST) -> Optional[str]:
@@ -1482,7 +1559,9 @@ def control_flow_normal_form(fn: ast.AST) -> int:
                         tst, neg = tst.operand, True
                     vname = tst.id if isinstance(tst, ast.Name) else (
                         tst.left.id if isinstance(tst, ast.Compare) and len(tst.ops) == 1 and isinstance(tst.ops[0], (ast.Is, ast.IsNot))
-                        and isinstance(tst.left, ast.Name) and isinstance(tst.comparators[0], ast.Constant) else None)
+                        and isinstance(tst.left, ast.Name) and (isinstance(tst.comparators[0], ast.Constant) or (
+                            isinstance(tst.comparators[0], ast.Name) and tst.comparators[0].id.startswith("_")
+                            and tst.comparators[0].id.strip("_").isupper())) else None)
                     if vname:
                         def leaves2(node: ast.If):
                             out_ = [node.body]
@@ -1492,16 +1571,32 @@ def control_flow_normal_form(fn: ast.AST) -> int:
                                 out_.append(node.orelse)
                             return out_
                         lv = leaves2(st)
-                        consts = [b_[-1].value.value if b_ and isinstance(b_[-1], ast.Assign) and len(b_[-1].targets) == 1 and _pure_name(b_[-1].targets[0])
-                                  and b_[-1].targets[0].id == vname and isinstance(b_[-1].value, ast.Constant) else _MISSING for b_ in lv]
+                        assigns_v = [b_ and isinstance(b_[-1], ast.Assign) and len(b_[-1].targets) == 1 and _pure_name(b_[-1].targets[0])
+                                     and b_[-1].targets[0].id == vname for b_ in lv]
+                        consts = [b_[-1].value.value if ok_ and isinstance(b_[-1].value, ast.Constant) else _MISSING for b_, ok_ in zip(lv, assigns_v)]
+                        # an identity marker (`_AMBIGUOUS = object()`): a branch either binds the marker or something that is not it
+                        marker = tst.comparators[0].id if isinstance(tst, ast.Compare) and isinstance(tst.comparators[0], ast.Name) else None
+                        if marker is not None:
+                            consts = [(_MARKER if isinstance(b_[-1].value, ast.Name) and b_[-1].value.id == marker else _NOT_MARKER) if ok_ else _MISSING
+                                      for b_, ok_ in zip(lv, assigns_v)]
                         loads = sum(1 for x in ast.walk(fn) if isinstance(x, ast.Name) and x.id == vname and isinstance(x.ctx, ast.Load))
                         size = _stmt_count_block(nxt.body) + _stmt_count_block(nxt.orelse)
-                        if all(c_ is not _MISSING for c_ in consts) and size * len(lv) <= 24:
+                        # a leaf that binds the flag to an expression gets the test itself (truth test of the flag only)
+                        n_expr = sum(1 for c_ in consts if c_ is _MISSING)
+                        computed_ok = isinstance(tst, ast.Name) and n_expr <= 1 and loads == 1 and any(c_ is not _MISSING for c_ in consts)
+                        if all(assigns_v) and (n_expr == 0 or computed_ok) and size * len(lv) <= 24:
                             for b_, c_ in zip(lv, consts):
+                                if c_ is _MISSING:
+                                    cond = b_[-1].value
+                                    if neg:
+                                        cond = ast.UnaryOp(op=ast.Not(), operand=cond)
+                                    b_[-1:] = [ast.copy_location(ast.If(test=cond, body=[copy.deepcopy(x) for x in nxt.body] or [ast.Pass()],
+                                                                        orelse=[copy.deepcopy(x) for x in nxt.orelse]), b_[-1])]
+                                    continue
                                 if isinstance(tst, ast.Name):
                                     outcome = bool(c_)
                                 else:
-                                    same = c_ is tst.comparators[0].value
+                                    same = (c_ is _MARKER) if marker is not None else (c_ is tst.comparators[0].value)
                                     outcome = same if isinstance(tst.ops[0], ast.Is) else not same
                                 outcome = (not outcome) if neg else outcome
                                 arm = nxt.body if outcome else nxt.orelse
@@ -1798,6 +1893,98 @@ def fold_constant_tests(fn: ast.AST) -> int:
 
 
 # ------------------------------------------------------------------------------------------------ class constants
+def fold_module_constants(p: Program, scope: FunctionInfo, fn: ast.AST, vocab: Set[str]) -> int:
+    """a module-level name bound once to a string / number literal, never declared global, named like a constant (capitals or a leading
+    underscore) and mentioned by no rule -> the literal.  `_LAST_SYMBOL = ">"` ... `value=_LAST_SYMBOL` reads `value='>'`."""
+    m = scope.module
+    if m.kind not in ("library", "config"):
+        return 0
+    local = {a.arg for a in ast.walk(fn) if isinstance(a, ast.arg)} | {x.id for x in ast.walk(fn) if isinstance(x, ast.Name) and isinstance(x.ctx, (ast.Store, ast.Del))}
+    declared_global = {nm for g in ast.walk(m.tree) if isinstance(g, ast.Global) for nm in g.names}
+    count = 0
+
+    class F(ast.NodeTransformer):
+        def visit_Name(self, n: ast.Name):
+            nonlocal count
+            if not isinstance(n.ctx, ast.Load) or n.id in local or n.id in declared_global or n.id in vocab:
+                return n
+            if not (n.id.isupper() or (n.id.startswith("_") and not n.id.startswith("__"))):
+                return n
+            bs = m.bindings.get(n.id) or []
+            if len(bs) != 1 or bs[0].kind != "assign":
+                return n
+            if isinstance(bs[0].value, ast.Tuple) and bs[0].value.elts and all(isinstance(e_, ast.Constant) and (
+                    e_.value is None or isinstance(e_.value, (str, int))) for e_ in bs[0].value.elts):
+                count += 1
+                return ast.copy_location(copy.deepcopy(bs[0].value), n)  # an immutable tuple of literals, e.g. `_UNRESOLVED = (None, None)`
+            if not isinstance(bs[0].value, ast.Constant):
+                return n
+            v = bs[0].value.value
+            if isinstance(v, bool) or not isinstance(v, (str, int)):
+                return n
+            count += 1
+            return ast.copy_location(ast.Constant(value=v), n)
+
+    F().visit(fn)
+    return count
+
+
+_FINAL_ATTR_WRITERS = ("__init__", "_init", "__new__", "__setstate__")
+
+
+def eliminate_final_attr_aliases(p: Program, scope: FunctionInfo, fn: ast.AST) -> int:
+    """`v = self.attr` (one binding of v, attr assigned nowhere in the program outside the constructors) ... uses of v -> `self.attr`"""
+    finals = getattr(p, "_final_attrs", None)
+    if finals is None:
+        written: Dict[str, Set[str]] = {}
+        for f in p.functions.values():
+            if f.module.kind == "dep":
+                continue
+            for n in ast.walk(f.node):
+                if isinstance(n, ast.Attribute) and isinstance(n.ctx, (ast.Store, ast.Del)):
+                    written.setdefault(n.attr, set()).add(f.name)
+                elif isinstance(n, ast.Call) and isinstance(n.func, ast.Name) and n.func.id == "setattr":
+                    written.setdefault("*", set()).add(f.name)
+        for m_ in p.modules.values():
+            if m_.kind == "dep":
+                continue
+            for st in m_.tree.body:
+                for n in ast.walk(st) if not isinstance(st, (ast.FunctionDef, ast.ClassDef)) else []:
+                    if isinstance(n, ast.Attribute) and isinstance(n.ctx, (ast.Store, ast.Del)):
+                        written.setdefault(n.attr, set()).add("<module>")
+        finals = {a for a, fs in written.items() if fs <= set(_FINAL_ATTR_WRITERS)}
+        p._final_attrs = finals
+    if scope.name in _FINAL_ATTR_WRITERS:
+        return 0
+    count = 0
+    for blk in list(_blocks(fn)):
+        for st in list(blk):
+            tgt, val = None, None
+            if isinstance(st, ast.Assign) and len(st.targets) == 1 and isinstance(st.targets[0], ast.Name):
+                tgt, val = st.targets[0].id, st.value
+            elif isinstance(st, ast.AnnAssign) and isinstance(st.target, ast.Name) and st.value is not None:
+                tgt, val = st.target.id, st.value
+            if tgt is None or not (isinstance(val, ast.Attribute) and isinstance(val.value, ast.Name) and val.value.id == "self" and val.attr in finals):
+                continue
+            stores = [x for x in ast.walk(fn) if isinstance(x, ast.Name) and x.id == tgt and isinstance(x.ctx, (ast.Store, ast.Del))]
+            if len(stores) != 1 or any(isinstance(a, ast.arg) and a.arg == tgt for a in ast.walk(fn)):
+                continue
+            if any(isinstance(x, (ast.Lambda, ast.FunctionDef)) and any(isinstance(y, ast.Name) and y.id == tgt for y in ast.walk(x)) for x in ast.walk(fn)
+                   if x is not fn):
+                continue
+
+            class R(ast.NodeTransformer):
+                def visit_Name(self, n: ast.Name):
+                    if n.id == tgt and isinstance(n.ctx, ast.Load):
+                        return ast.copy_location(ast.Attribute(value=ast.Name(id="self", ctx=ast.Load()), attr=val.attr, ctx=ast.Load()), n)
+                    return n
+            blk.remove(st)
+            R().visit(fn)
+            count += 1
+    return count
+
+
+
 def fold_class_constants(p: Program, scope: FunctionInfo, fn: ast.AST) -> int:
     """``C.attr`` -> the literal, where C is a class of the program whose body binds ``attr`` once to a literal and nothing
     assigns ``<anything>.attr`` anywhere in the program"""
@@ -1848,9 +2035,16 @@ def _is_temp(name: str) -> bool:
     return bool(re.match(r"_h\d+_", name))
 
 
-def forward_substitute(fn: ast.AST):
+def forward_substitute(fn: ast.AST, also=None):
     """``_hN_x = E`` immediately followed by the only use of ``_hN_x`` (in the head of the next statement) -> the use
-    is replaced by ``E``.  Only temporaries introduced by the inliner are touched."""
+    is replaced by ``E``.  Temporaries introduced by the inliner, and - when ``also(name)`` says so - single-use locals of the
+    author (`finder = FindInAll()` / `results = finder.find(..)` / `return list(results)` reads `return list(FindInAll().find(..))`);
+    only adjacent statements, so nothing is evaluated in another order than written."""
+    params = {a.arg for a in ast.walk(fn) if isinstance(a, ast.arg)}
+    _is_temp_orig = globals()["_is_temp"]
+
+    def _is_temp(nm: str) -> bool:  # widened locally
+        return _is_temp_orig(nm) or (also is not None and nm not in params and also(nm))
     for _ in range(40):
         loads: Dict[str, int] = {}
         stores: Dict[str, int] = {}
@@ -1950,6 +2144,8 @@ def _safe_names(node: ast.AST):
 # ------------------------------------------------------------------------------------------------ driver
 def normalise(p: Program, vocab: Optional[Set[str]] = None) -> Tuple[Dict[str, ast.Module], Dict]:
     """-> ({relpath: transformed module tree}, report)"""
+    if vocab is None:
+        vocab = vocabulary()
     inl = Inliner(p, vocab)
     n_unrolled = 0
     n_cf = 0
@@ -1991,10 +2187,17 @@ def normalise(p: Program, vocab: Optional[Set[str]] = None) -> Tuple[Dict[str, a
             if mark == (len(inl.log), fused, unrolled):
                 break
         n_unrolled += unrolled + fused
+        pre = fold_module_constants(p, f, tgt, vocab) + eliminate_final_attr_aliases(p, f, tgt)
+        _src0 = ast.dump(tgt)
+        forward_substitute(tgt, also=lambda nm: nm not in vocab and not nm.startswith("__"))
+        if pre or ast.dump(tgt) != _src0:
+            changed.add(f.module.name)
         cf = control_flow_normal_form(tgt) if f.parent is None or True else 0
         n_cf += cf
         if cf:
             changed.add(f.module.name)
+            _src1 = ast.dump(tgt)
+            forward_substitute(tgt, also=lambda nm: nm not in vocab and not nm.startswith("__"))
         if len(inl.log) > before or unrolled or fused:
             _beta(tgt)
             fold_class_constants(p, f, tgt)
